@@ -1,16 +1,195 @@
 import Tw.Model.Datafile
 import Tw.Model.Inflate
+import Tw.Proofs.Datafile
 
 /-!
 # C16 — datafile and map readers are total; accepted files are fully traversable
+
+Property theorems only (helper lemmas: `Tw/Proofs/Datafile.lean`).  The model
+`Tw/Model/Datafile.lean` follows `datafile/src/raw.rs` + `format.rs` *after* the two D13 repairs
+(see `notes/datafile.md`); it is tied to the code by the `datafile` correspondence domain.
+Every overflow check, assertion, `assert_usize` and slice index of the code is an explicit
+`Outcome.panic` in the model, so "`≠ .panic`" is the statement "does not panic" and the `ViewOk` /
+range conclusions are the statement "does not read out of bounds".
 -/
 namespace Tw.Props.C16
 open Tw.Datafile
 
-/-- The zlib stand-in used by the driver satisfies the contract the accessor theorems assume of
-`uncompress`: it never produces more than the destination holds. -/
+/-- **Totality of opening.**  For every byte string, `Reader::new` (header read, header checks,
+table reads, `check`) returns a reader or an error; none of its arithmetic steps, assertions or
+slice indexes can fail. -/
+theorem reader_new_never_panics (bytes : List UInt8) (site : String) :
+    Reader.new bytes ≠ .panic site := by
+  rcases new_spec bytes with ⟨e, he⟩ | ⟨r, hr, _⟩
+  · rw [he]; simp
+  · rw [hr]; simp
+
+/-- The header arithmetic (`calculate_total_size` with the < 2 GiB rule, `calculate_size_field`,
+`calculate_swaplen_field`) cannot overflow once `HeaderRest::check` has passed. -/
+theorem header_check_never_panics (h : Header) (hr : h.checkRest = true) (site : String) :
+    h.checkSizeAndSwaplen ≠ .panic site := by
+  rcases Header.checkSizeAndSwaplen_cases h hr with he | ⟨hc, he, _⟩
+  · rw [he]; simp
+  · rw [he]; simp
+
+/-- An accepted file is below 2 GiB and completely present: the whole data section lies inside
+the file, and every table has the length the header announces. -/
+theorem accepted_shape (bytes : List UInt8) (r : Reader) (h : Reader.new bytes = .ok r) :
+    r.itemTypes.length = r.numItemTypes.toNat ∧ r.itemOffsets.length = r.numItems.toNat
+      ∧ r.dataOffsets.length = r.numData.toNat ∧ 4 * r.itemsRaw.length = r.sizeItems.toNat
+      ∧ r.sizeData.toNat ≤ r.dataRegion.length
+      ∧ (∀ uds, r.uncompSizes = some uds → uds.length = r.numData.toNat) := by
+  rcases new_spec bytes with ⟨e, he⟩ | ⟨r', hr, inv, hd⟩
+  · rw [he] at h; cases h
+  · rw [hr] at h; cases h
+    exact ⟨inv.typesLen, inv.offsLen, inv.doffsLen, inv.rawLen, hd, inv.udsLen⟩
+
+/-- `num_items()`, `num_data()`, `num_item_types()` (`assert_usize`) on an accepted file. -/
+theorem accepted_counts (bytes : List UInt8) (r : Reader) (h : Reader.new bytes = .ok r) :
+    r.numItemsU = .ok r.numItems.toNat ∧ r.numDataU = .ok r.numData.toNat
+      ∧ r.numItemTypesU = .ok r.numItemTypes.toNat := by
+  rcases new_spec bytes with ⟨e, he⟩ | ⟨r', hr, inv, _⟩
+  · rw [he] at h; cases h
+  · rw [hr] at h; cases h
+    have := inv.ni; have := inv.nd; have := inv.nit
+    refine ⟨?_, ?_, ?_⟩
+    · unfold Reader.numItemsU; rw [if_neg (by omega)]
+    · unfold Reader.numDataU; rw [if_neg (by omega)]
+    · unfold Reader.numItemTypesU; rw [if_neg (by omega)]
+
+/-- **`item(index)` for every in-range index**: no panic, and the returned slice is
+`items_raw[off .. off + len]` with `off + len ≤ items_raw.len()`. -/
+theorem accepted_item (bytes : List UInt8) (r : Reader) (h : Reader.new bytes = .ok r)
+    (k : Nat) (hk : k < r.numItems.toNat) :
+    ∃ v, r.item k = .ok v ∧ v.off + v.len ≤ r.itemsRaw.length
+      ∧ v.data = (r.itemsRaw.drop v.off).take v.len ∧ v.data.length = v.len
+      ∧ v.typeId < 65536 ∧ v.id < 65536 := by
+  rcases new_spec bytes with ⟨e, he⟩ | ⟨r', hr, inv, _⟩
+  · rw [he] at h; cases h
+  · rw [hr] at h; cases h
+    obtain ⟨v, hv, hvok⟩ := item_ok inv hk
+    exact ⟨v, hv, hvok⟩
+
+/-- `item_header(index)` (used by `check` itself and by `item`) for every in-range index. -/
+theorem accepted_item_header (bytes : List UInt8) (r : Reader) (h : Reader.new bytes = .ok r)
+    (k : Nat) (hk : k < r.numItems.toNat) :
+    ∃ w size, r.itemHeader k = .ok (w, size) ∧ 0 ≤ size ∧ size % 4 = 0 := by
+  rcases new_spec bytes with ⟨e, he⟩ | ⟨r', hr, inv, _⟩
+  · rw [he] at h; cases h
+  · rw [hr] at h; cases h
+    obtain ⟨o, a, size, _, _, _, hh, _, hs, hs4, _⟩ := inv.items k hk
+    exact ⟨a, size, hh, hs, by omega⟩
+
+/-- **`item_type_indices(type_id)` for every `u16`** (indeed every number): no panic, and the
+range is a sub-range of `0 .. num_items`. -/
+theorem accepted_item_type_indices (bytes : List UInt8) (r : Reader)
+    (h : Reader.new bytes = .ok r) (typeId : Nat) :
+    ∃ a b, r.itemTypeIndices typeId = .ok (a, b) ∧ a ≤ b ∧ b ≤ r.numItems.toNat := by
+  rcases new_spec bytes with ⟨e, he⟩ | ⟨r', hr, inv, _⟩
+  · rw [he] at h; cases h
+  · rw [hr] at h; cases h
+    obtain ⟨a, b, e, h1, h2, _⟩ := itemTypeIndicesIn_ok r.numItems r.itemTypes typeId inv.types
+    exact ⟨a, b, e, h1, h2⟩
+
+/-- Every item inside the range `item_type_indices(type_id)` returns carries that type id (the
+fourth block of `check`); this is what the map reader's `assert!(raw.type_id == …)` relies on. -/
+theorem accepted_type_range_items_have_type (bytes : List UInt8) (r : Reader)
+    (h : Reader.new bytes = .ok r) (typeId a b k : Nat)
+    (hr : r.itemTypeIndices typeId = .ok (a, b)) (hk1 : a ≤ k) (hk2 : k < b) :
+    ∃ v, r.item k = .ok v ∧ v.typeId = typeId := by
+  rcases new_spec bytes with ⟨e, he⟩ | ⟨r', hr', inv, _⟩
+  · rw [he] at h; cases h
+  · rw [hr'] at h; cases h
+    obtain ⟨a', b', e, h1, h2, h3⟩ := itemTypeIndicesIn_ok r.numItems r.itemTypes typeId inv.types
+    unfold Reader.itemTypeIndices at hr
+    rw [e] at hr
+    cases hr
+    rcases h3 with h0 | ⟨t, ht, hty, ha, hb⟩
+    · cases h0; omega
+    · obtain ⟨w, size, hh, hw⟩ := inv.typeIds t ht k (by omega) (by omega)
+      obtain ⟨v, hv, _⟩ := item_ok inv (k := k) (by omega)
+      refine ⟨v, hv, ?_⟩
+      -- `item` reads the same header word
+      unfold Reader.item at hv
+      rw [hh] at hv
+      simp only at hv
+      repeat (split at hv; · simp at hv)
+      cases hv
+      simp only
+      unfold headerTypeId at hw
+      rw [← hty]
+      have : 0 ≤ w % 4294967296 := by omega
+      omega
+
+/-- **`item_type(index)`** for every index below `num_item_types`. -/
+theorem accepted_item_type (bytes : List UInt8) (r : Reader) (h : Reader.new bytes = .ok r)
+    (k : Nat) (hk : k < r.numItemTypes.toNat) : ∃ t, r.itemType k = .ok t ∧ t < 65536 := by
+  rcases new_spec bytes with ⟨e, he⟩ | ⟨r', hr, inv, _⟩
+  · rw [he] at h; cases h
+  · rw [hr] at h; cases h
+    exact itemType_ok inv hk
+
+/-- **`find_item(type_id, item_id)` for every pair**: no panic; a returned item lies inside
+`items_raw` and has the requested id. -/
+theorem accepted_find_item (bytes : List UInt8) (r : Reader) (h : Reader.new bytes = .ok r)
+    (typeId itemId : Nat) :
+    ∃ res, r.findItem typeId itemId = .ok res
+      ∧ ∀ v, res = some v → v.off + v.len ≤ r.itemsRaw.length ∧ v.id = itemId := by
+  rcases new_spec bytes with ⟨e, he⟩ | ⟨r', hr, inv, _⟩
+  · rw [he] at h; cases h
+  · rw [hr] at h; cases h
+    obtain ⟨res, hres, hv⟩ := findItem_ok inv typeId itemId
+    exact ⟨res, hres, fun v h => ⟨(hv v h).1.1, (hv v h).2⟩⟩
+
+/-- **`data_size_file(index)`** (the `assert!(start <= end)`) for every data index; the stored
+block lies inside the data section. -/
+theorem accepted_data_size_file (bytes : List UInt8) (r : Reader) (h : Reader.new bytes = .ok r)
+    (k : Nat) (hk : k < r.numData.toNat) :
+    ∃ off n, r.dataOffsets[k]? = some off ∧ 0 ≤ off ∧ r.dataSizeFile k = .ok n
+      ∧ off.toNat + n ≤ r.sizeData.toNat := by
+  rcases new_spec bytes with ⟨e, he⟩ | ⟨r', hr, inv, _⟩
+  · rw [he] at h; cases h
+  · rw [hr] at h; cases h
+    exact dataSizeFile_ok inv hk
+
+/-- **`read_data(index)` for every data index**, for any zlib that honours its contract
+(`inflate destLen src` produces at most `destLen` bytes): an error or the data, never a panic or
+an out-of-bounds write; a version-3 block is exactly the bytes `off .. off + n` of the data
+section; a version-4 block has exactly the length the size table announces. -/
+theorem accepted_read_data (bytes : List UInt8) (r : Reader) (h : Reader.new bytes = .ok r)
+    (inflate : Nat → List UInt8 → Option (List UInt8))
+    (hz : ∀ n src out, inflate n src = some out → out.length ≤ n)
+    (k : Nat) (hk : k < r.numData.toNat) :
+    (∃ e, r.readData inflate k = .err e)
+      ∨ ∃ out, r.readData inflate k = .ok out
+          ∧ (r.uncompSizes = none → ∃ off n, r.dataOffsets[k]? = some off ∧ 0 ≤ off
+                ∧ off.toNat + n ≤ r.sizeData.toNat ∧ out = (r.dataRegion.drop off.toNat).take n
+                ∧ out.length = n)
+          ∧ (∀ uds, r.uncompSizes = some uds → ∃ u, uds[k]? = some u ∧ 0 ≤ u ∧ out.length = u.toNat) := by
+  rcases new_spec bytes with ⟨e, he⟩ | ⟨r', hr, inv, _⟩
+  · rw [he] at h; cases h
+  · rw [hr] at h; cases h
+    exact readData_ok inv inflate hz hk
+
+/-- The zlib stand-in used by the driver satisfies the contract assumed of `uncompress` above. -/
 theorem driver_inflate_contract (destLen : Nat) (src out : List UInt8)
     (h : Tw.Inflate.inflate destLen src = some out) : out.length ≤ destLen :=
   Tw.Inflate.inflate_le destLen src out h
+
+/-- D13 regression, in the model: the two files that made the unrepaired `Reader::new` panic are
+now rejected as `Malformed`. -/
+theorem d13_witnesses_rejected :
+    (Reader.new [68, 65, 84, 65, 3, 0, 0, 0, 32, 0, 0, 0, 32, 0, 0, 0, 1, 0, 0, 0, 0, 0, 0, 0, 0, 0, 0, 0,
+        0, 0, 0, 0, 0, 0, 0, 0, 0, 0, 0, 0, 0, 0, 0, 128, 0, 0, 0, 0]).isErr .malformed = true
+    ∧ (Reader.new [68, 65, 84, 65, 3, 0, 0, 0, 68, 0, 0, 0, 68, 0, 0, 0, 1, 0, 0, 0, 2, 0, 0, 0, 0, 0, 0, 0,
+        28, 0, 0, 0, 0, 0, 0, 0, 0, 0, 0, 0, 0, 0, 0, 0, 2, 0, 0, 0, 0, 0, 0, 0, 14, 0, 0, 0,
+        0, 0, 0, 0, 6, 0, 0, 0, 1, 2, 3, 4, 5, 6, 1, 0, 0, 0, 6, 0, 0, 0, 1, 2, 3, 4, 5, 6]).isErr .malformed = true := by
+  constructor <;> decide
+
+/-- non-vacuity: a version-3 file with one type, two items and one data block is accepted -/
+example : (Reader.new (writeDf 3 id [⟨4, 0, [7]⟩, ⟨4, 1, []⟩] [[1, 2, 3]])).isOk = true := by decide
+
+/-- non-vacuity: a version-4 file (identity "compression") is accepted -/
+example : (Reader.new (writeDf 4 id [⟨0, 0, [1]⟩, ⟨5, 2, [-1, 2]⟩] [[9], []])).isOk = true := by decide
 
 end Tw.Props.C16
